@@ -20,6 +20,8 @@ pub enum FieldTy {
     Pay,
     /// the enum's type parameter `T` (instantiated at vrt::Pay)
     Gen,
+    /// a second type parameter `U` (instantiated at u8)
+    Gen2,
     /// `&'a str` under the enum's lifetime parameter (instantiated at 'static)
     RefStr,
     /// PhantomData<[u8; N]> under a const parameter
@@ -57,6 +59,7 @@ impl FieldTy {
             FieldTy::Arr2 => "[u8; 2]",
             FieldTy::Pay => "vrt::Pay",
             FieldTy::Gen => "T",
+            FieldTy::Gen2 => "U",
             FieldTy::RefStr => "&'a str",
             FieldTy::Phantom => "::core::marker::PhantomData<[u8; N]>",
             FieldTy::BoxStr => "Box<str>",
@@ -73,7 +76,7 @@ impl FieldTy {
     /// `vrt::R::r` rendering of `Default::default()` for this type.
     pub fn default_render(self) -> &'static str {
         match self {
-            FieldTy::U8 | FieldTy::I32 | FieldTy::U64 => "0",
+            FieldTy::U8 | FieldTy::I32 | FieldTy::U64 | FieldTy::Gen2 => "0",
             FieldTy::Bool => "false",
             FieldTy::Char => "'\\0'",
             FieldTy::Str | FieldTy::RefStr | FieldTy::BoxStr | FieldTy::StaticStr => "s:",
@@ -290,6 +293,9 @@ pub struct EnumSpec {
     pub name: String,
     pub lifetime: bool,
     pub type_param: bool,
+    /// a second type parameter U (only together with T)
+    #[serde(default)]
+    pub type_param2: bool,
     pub const_param: bool,
     pub where_clause: bool,
     /// type / const parameters carry defaults (`T = ..`, `const N: usize = 3`)
@@ -317,6 +323,7 @@ impl EnumSpec {
             name: name.to_string(),
             lifetime: false,
             type_param: false,
+            type_param2: false,
             const_param: false,
             where_clause: false,
             generic_defaults: false,
